@@ -178,8 +178,11 @@ def finish(rep: Report) -> int:
         "known_findings_hit": [v.signature for v in rep.violations if v.known is not None],
     }
     os.makedirs(os.path.join(OUT, "evidence"), exist_ok=True)
-    with open(os.path.join(OUT, "evidence", rep.pid + ".json"), "w") as f:
-        json.dump(ev, f, indent=1, ensure_ascii=True, default=repr)
+    # <id>.json is the evidence of the most recent run; a copy per tier is kept so that a thorough run's record survives the
+    # next quick run
+    for name in (rep.pid + ".json", f"{rep.pid}.{tier()}.json"):
+        with open(os.path.join(OUT, "evidence", name), "w") as f:
+            json.dump(ev, f, indent=1, ensure_ascii=True, default=repr)
     for o in rep.obs:
         print(f"[{rep.pid}] {o.name}: {o.verdict} (conditions={o.conditions} confirmed={o.confirmed_conditions} paths={o.paths} queries={o.queries} solver_s={o.solver_s:.1f}) {o.detail[:300]}")
     for v in rep.violations:
